@@ -26,6 +26,7 @@ use serde_json::json;
 // =============================================================================================
 pub fn c03(ctx: &mut Ctx) {
     let q = ctx.quick();
+    ctx.phase(0.35);
     wdec(ctx, DecPlan {
         fixed_bases: if q { 32 } else { 96 },
         seeded_bases: if q { 40 } else { 1500 },
@@ -39,7 +40,9 @@ pub fn c03(ctx: &mut Ctx) {
         tag_sweep: true,
     });
     // unstructured strings through parse / JSON, for Enr and NodeId
-    let n = ctx.vol(if q { 20_000 } else { 500_000 });
+    if std::env::var("ENRMON_DEBUG").is_ok() { eprintln!("c03: wdec done {:?}", ctx.start.elapsed()); }
+    ctx.phase(0.5);
+    let n = if cfg!(miri) { 1_000_000 } else { ctx.vol(if q { 20_000 } else { 500_000 }) };
     for i in 0..n {
         if !ctx.mine(i) {
             continue;
@@ -82,9 +85,13 @@ pub fn c03(ctx: &mut Ctx) {
             ctx.violate("C03", "panic", &format!("NodeId::parse/{}", panic_sig(&p)), || format!("NodeId::parse panicked: {p}"), || json!({"kind": "nodeid-parse", "hex": hex(&raw)}));
         }
     }
+    if std::env::var("ENRMON_DEBUG").is_ok() { eprintln!("c03: strings done {:?}", ctx.start.elapsed()); }
+    ctx.phase(0.97);
     c03_hist_part(ctx);
+    if std::env::var("ENRMON_DEBUG").is_ok() { eprintln!("c03: hist done {:?}", ctx.start.elapsed()); }
+    ctx.phase(1.0);
     // key import with arbitrary bytes
-    let n = ctx.vol(if q { 3000 } else { 100_000 });
+    let n = if cfg!(miri) { 0 } else { ctx.vol(if q { 3000 } else { 100_000 }) };
     for i in 0..n {
         if !ctx.mine(i) {
             continue;
@@ -166,7 +173,7 @@ fn judge_text(ctx: &mut Ctx, kind: &str, s: &str, via_json: bool) {
 
 pub fn c12(ctx: &mut Ctx) {
     let q = ctx.quick();
-    let pools = [gen::key_pool(Scheme::Secp, 7), gen::key_pool(Scheme::Ed, 7), gen::key_pool(Scheme::Toy, 7)];
+    let pools = crate::props::Pools::new();
     let nb = 24 + ctx.vol(if q { 40 } else { 2500 });
     for b in 0..nb {
         if !ctx.mine(b) {
@@ -178,7 +185,7 @@ pub fn c12(ctx: &mut Ctx) {
         }
         let mut r = if b < 24 { rng_for(0, &["c12-fixed"], b) } else { rng_for(ctx.seed, &["c12"], b) };
         let scheme = scheme_for_base(b);
-        let rec = gen::random_valid(&mut r, &pools[match scheme { Scheme::Secp => 0, Scheme::Ed => 1, Scheme::Toy => 2 }]);
+        let rec = gen::random_valid(&mut r, pools.get(scheme));
         let bytes = rec.bytes();
         let body = b64::encode(&bytes);
         let text = format!("enr:{body}");
@@ -310,8 +317,8 @@ fn decode_seq_kt(kt: KT, buf: &[u8], n: usize) -> Result<Vec<(Vec<u8>, usize)>, 
 
 pub fn c13(ctx: &mut Ctx) {
     let q = ctx.quick();
-    let pools = [gen::key_pool(Scheme::Secp, 7), gen::key_pool(Scheme::Ed, 7), gen::key_pool(Scheme::Toy, 7)];
-    let pool = |s: Scheme| &pools[match s { Scheme::Secp => 0, Scheme::Ed => 1, Scheme::Toy => 2 }];
+    let pools = crate::props::Pools::new();
+    let pool = |s: Scheme| pools.get(s);
     let nb = 12 + ctx.vol(if q { 36 } else { 1500 });
     for b in 0..nb {
         if !ctx.mine(b) {
@@ -329,22 +336,34 @@ pub fn c13(ctx: &mut Ctx) {
         let mut items: Vec<(&'static str, Vec<u8>)> = vec![("valid", valid.clone())];
         // a small record, so that long suffixes still keep the whole buffer interesting
         items.push(("valid-minimal", Rec::minimal(rec.key, 1).bytes()));
-        let muts = gen::structural_mutants(&rec, &mut r);
-        for (cls, m) in muts.into_iter().step_by(if q { 9 } else { 3 }) {
-            items.push((cls, m));
-        }
-        for (cls, m) in gen::field_tampers(&rec, &pool(scheme)[0], &other).into_iter().step_by(if q { 7 } else { 2 }) {
-            items.push((cls, m));
+        if !cfg!(miri) {
+            let muts = gen::structural_mutants(&rec, &mut r);
+            for (cls, m) in muts.into_iter().step_by(if q { 9 } else { 3 }) {
+                items.push((cls, m));
+            }
+            for (cls, m) in gen::field_tampers(&rec, &pool(scheme)[0], &other).into_iter().step_by(if q { 7 } else { 2 }) {
+                items.push((cls, m));
+            }
+        } else {
+            // cheap invalid items: a flipped signature bit, a truncated-but-reframed record
+            let mut v = valid.clone();
+            v[10] ^= 1;
+            items.push(("bit-flip", v));
         }
         ctx.count("bases");
         for (cls, item) in &items {
+            if cfg!(miri) && ctx.expired() {
+                break;
+            }
             // the quantifier: buffers that begin with a complete RLP item
             match rlp::header(item) {
                 Ok(h) if h.total() == item.len() => {}
                 _ => continue,
             }
-            let mut lens: Vec<usize> = (0..=16).collect();
-            lens.extend(290..=310);
+            let mut lens: Vec<usize> = if cfg!(miri) { vec![0, 1, 2, 16, 200, 301] } else { (0..=16).collect() };
+            if !cfg!(miri) {
+                lens.extend(290..=310);
+            }
             let extra = if q { 6 } else { 40 };
             for _ in 0..extra {
                 lens.push(17 + below(&mut r, 984) as usize);
@@ -356,6 +375,9 @@ pub fn c13(ctx: &mut Ctx) {
                     continue;
                 }
                 for &l in &lens {
+                    if cfg!(miri) && ctx.expired() {
+                        break;
+                    }
                     let fills: Vec<Vec<u8>> = vec![
                         vec![0u8; l],
                         vec![0xffu8; l],
@@ -394,6 +416,9 @@ pub fn c13(ctx: &mut Ctx) {
         // back-to-back sequences and RLP lists of 1..=8 valid records
         let kts: Vec<KT> = dec::kts().into_iter().filter(|k| k.reads(scheme)).collect();
         for n in 1..=8usize {
+            if cfg!(miri) && ctx.expired() {
+                break;
+            }
             let recs: Vec<Vec<u8>> = (0..n).map(|_| gen::random_valid(&mut r, pool(scheme)).bytes()).collect();
             let concat: Vec<u8> = recs.concat();
             let listed = crate::props::rlp_wrap_list(&recs);
@@ -840,6 +865,37 @@ pub fn c16(ctx: &mut Ctx) {
     let viol = |ctx: &mut Ctx, rule: &str, class: &str, detail: String, input: serde_json::Value| {
         ctx.violate("C16", rule, class, || detail.clone(), || json!({"kind": "nodeid", "input": input}));
     };
+    // parse: all slice lengths 0..=64 (complete), several fills
+    for len in 0..=64usize {
+        if !ctx.mine(len as u64) {
+            continue;
+        }
+        for fill in [0x00u8, 0x01, 0xab, 0xff] {
+            let v = vec![fill; len];
+            ctx.count("evaluations");
+            ctx.count("nodeid.parse-lengths");
+            let r = NodeId::parse(&v);
+            if (len == 32) != r.is_ok() {
+                ctx.violate("C16", "parse-length-not-strict", if len < 32 { "shorter" } else if len == 32 { "exact" } else { "longer" }, || format!("parse of {len} bytes: {:?}", r.is_ok()), || json!({"kind": "nodeid-parse", "hex": hex(&v)}));
+            }
+        }
+    }
+    // hex strings of length 0..=70, with and without prefix
+    for len in 0..=70usize {
+        if !ctx.mine(len as u64) {
+            continue;
+        }
+        for (pfx, ch) in [("", 'a'), ("0x", 'a'), ("", 'F'), ("0x", '0'), ("0x", 'g')] {
+            let s = format!("{pfx}{}", std::iter::repeat(ch).take(len).collect::<String>());
+            ctx.count("evaluations");
+            ctx.count("nodeid.hex-lengths");
+            let ok = serde_json::from_str::<NodeId>(&format!("\"{s}\"")).is_ok();
+            let want = len == 64 && ch != 'g';
+            if ok != want {
+                ctx.violate("C16", if want { "valid-hex-rejected" } else { "malformed-hex-accepted" }, &format!("length/{pfx}"), || format!("{s:?} accepted={ok}"), || json!({"kind": "nodeid", "input": s}));
+            }
+        }
+    }
     for i in 0..n {
         if !ctx.mine(i) {
             continue;
@@ -936,37 +992,6 @@ pub fn c16(ctx: &mut Ctx) {
                 if let Ok(d) = serde_json::from_str::<NodeId>(&doc) {
                     viol(ctx, "malformed-hex-accepted", cls, format!("{s:?} => {:?}", d), json!(s));
                 }
-            }
-        }
-    }
-    // parse: all slice lengths 0..=64 (complete), several fills
-    for len in 0..=64usize {
-        if !ctx.mine(len as u64) {
-            continue;
-        }
-        for fill in [0x00u8, 0x01, 0xab, 0xff] {
-            let v = vec![fill; len];
-            ctx.count("evaluations");
-            ctx.count("nodeid.parse-lengths");
-            let r = NodeId::parse(&v);
-            if (len == 32) != r.is_ok() {
-                ctx.violate("C16", "parse-length-not-strict", if len < 32 { "shorter" } else if len == 32 { "exact" } else { "longer" }, || format!("parse of {len} bytes: {:?}", r.is_ok()), || json!({"kind": "nodeid-parse", "hex": hex(&v)}));
-            }
-        }
-    }
-    // hex strings of length 0..=70, with and without prefix
-    for len in 0..=70usize {
-        if !ctx.mine(len as u64) {
-            continue;
-        }
-        for (pfx, ch) in [("", 'a'), ("0x", 'a'), ("", 'F'), ("0x", '0'), ("0x", 'g')] {
-            let s = format!("{pfx}{}", std::iter::repeat(ch).take(len).collect::<String>());
-            ctx.count("evaluations");
-            ctx.count("nodeid.hex-lengths");
-            let ok = serde_json::from_str::<NodeId>(&format!("\"{s}\"")).is_ok();
-            let want = len == 64 && ch != 'g';
-            if ok != want {
-                ctx.violate("C16", if want { "valid-hex-rejected" } else { "malformed-hex-accepted" }, &format!("length/{pfx}"), || format!("{s:?} accepted={ok}"), || json!({"kind": "nodeid", "input": s}));
             }
         }
     }
